@@ -22,6 +22,8 @@ type sqlFaults struct {
 	FailQueryAt   int // the q-th SELECT on events fails (-1: never)
 	FailCloseAt   int // the c-th Rows.Close of such a SELECT fails (-1: never)
 	FailSubExecAt int // the x-th statement executed against subscription_positions fails (0: never; 1-based)
+	FailSubQueryAt int // the x-th SELECT against subscription_positions fails (0: never; 1-based)
+	subQueries     int
 	subExecs      int
 	rows, queries, closes int
 	Fired         map[string]int
@@ -76,7 +78,7 @@ func (c *faultyConn) PrepareContext(ctx context.Context, q string) (driver.Stmt,
 	if err != nil {
 		return nil, err
 	}
-	return &faultyStmt{Stmt: s, watched: isEventSelect(q), subExec: strings.Contains(q, "subscription_positions") && !strings.HasPrefix(strings.TrimSpace(strings.ToUpper(q)), "SELECT") && !strings.HasPrefix(strings.TrimSpace(strings.ToUpper(q)), "CREATE")}, nil
+	return &faultyStmt{Stmt: s, watched: isEventSelect(q), subQuery: isSubSelect(q), subExec: strings.Contains(q, "subscription_positions") && !strings.HasPrefix(strings.TrimSpace(strings.ToUpper(q)), "SELECT") && !strings.HasPrefix(strings.TrimSpace(strings.ToUpper(q)), "CREATE")}, nil
 }
 
 func (c *faultyConn) Prepare(q string) (driver.Stmt, error) { return c.PrepareContext(context.Background(), q) }
@@ -106,6 +108,9 @@ func (c *faultyConn) QueryContext(ctx context.Context, q string, args []driver.N
 	}
 	watched := isEventSelect(q)
 	if watched && queryFault() {
+		return nil, errSQLInjected
+	}
+	if isSubSelect(q) && subQueryFault() {
 		return nil, errSQLInjected
 	}
 	r, err := qc.QueryContext(ctx, q, args)
@@ -141,8 +146,26 @@ func (c *faultyConn) IsValid() bool {
 
 type faultyStmt struct {
 	driver.Stmt
-	watched bool
-	subExec bool
+	watched  bool
+	subExec  bool
+	subQuery bool
+}
+
+func isSubSelect(q string) bool {
+	return strings.Contains(q, "subscription_positions") && strings.HasPrefix(strings.TrimSpace(strings.ToUpper(q)), "SELECT")
+}
+
+func subQueryFault() bool {
+	f := curSQLFaults
+	if f == nil || f.FailSubQueryAt <= 0 {
+		return false
+	}
+	f.subQueries++
+	if f.subQueries == f.FailSubQueryAt {
+		f.Fired["sql-subscription-read-fails"]++
+		return true
+	}
+	return false
 }
 
 func subExecFault() bool {
@@ -188,6 +211,9 @@ func (s *faultyStmt) QueryContext(ctx context.Context, args []driver.NamedValue)
 		return nil, driver.ErrSkip
 	}
 	if s.watched && queryFault() {
+		return nil, errSQLInjected
+	}
+	if s.subQuery && subQueryFault() {
 		return nil, errSQLInjected
 	}
 	r, err := q.QueryContext(ctx, args)
